@@ -214,6 +214,18 @@ CHECKS = {
         note="Offsets at field boundaries; an idle peer on a multiplex server is never read and hence not timed out (by design).",
         design_ref="DESIGN.md section 3 C13",
     ),
+    "C12": dict(
+        engine="N+T",
+        technique="stateless exploration of call scripts of several clients x server types with bounded exhaustive interleavings (scheduling points inside method bodies and the oneway thread), wire-level oracle",
+        text="Scripts of 1-3 clients over calls that return with a response annotation (set by assignment or in place), raise after setting one, oneway calls setting one, "
+             "plain calls, batches, pings and reconnects run against the real request loop of the multiplex server and of the thread-pool server (roomy, and one worker reused "
+             "by successive connections) under every interleaving within the budget; method bodies and the oneway thread contain scheduling points. Every method records "
+             "the context it sees (request annotations, correlation id, sequence number, flags, serializer, connection, peer) - it must be its own request's, also after a "
+             "yield; every server-to-client message is parsed on the wire: a RESULT may only carry annotations set by the request it answers, CONNECTOK/CONNECTFAIL/ping "
+             "replies none; each client sees only its own call's annotations after a call.",
+        note="Ownership is decided by tagging each annotation value with the id of the request that set it; budgets (1-2 preemptions, 1-3 reorderings) in evidence.",
+        design_ref="DESIGN.md section 3 C12",
+    ),
 }
 
 NOT_YET = {}
